@@ -102,6 +102,15 @@ func genHist(prop string, seed uint64, tier string) *Scenario {
 		}
 		m := r.rangeI(1, 2*n)
 		u, v := r.genDivision(n, m)
+		if r.chance(0.3) {
+			// short dividend, long divisor, quotient about half as long as the divisor
+			// (the shape that needs the final block of recursive division to be right)
+			u = r.genWords(r.rangeI(1, 2), r.pick(1, 1, 0, 4))
+			m = n/2 + r.rangeI(-2, 2)
+			if m < 1 {
+				m = 1
+			}
+		}
 		mk := func(w []uint64) VarSpec {
 			return VarSpec{Form: 1, Words: w, Exp: int32(r.rangeI(-20, 20)), Prec: uint32(len(w) * wordDigits), Mode: uint8(r.intn(6)), Neg: r.chance(0.3)}
 		}
